@@ -335,3 +335,37 @@ func zzH_decRejectOne() {
 	verifAssert(len(b.Data) <= len(d0), "WriteBlock: data appended although the sequence was rejected [C05]")
 	verifReach("end")
 }
+
+// zzH_decInit: base case of the induction. Init/Reset of a DecoderBuffer (fresh
+// or used, with any retained capacity) and NewDecoder with any int64
+// configuration either fail or establish the representation invariant that all
+// step harnesses assume.
+func zzH_decInit() {
+	var b DecoderBuffer
+	if verifChoose("used", 2) == 1 {
+		b.Data = verifBytesCap("D", 2, 2+verifChoose("cx", 4))
+		b.R, b.Off = 1, 7
+		b.WindowSize, b.BufferSize = 1, 3
+	}
+	cfg := DecoderConfig{WindowSize: verifInt("W"), BufferSize: verifInt("B")}
+	err := b.Init(cfg)
+	if err == nil {
+		verifAssert(0 <= b.WindowSize && b.WindowSize < b.BufferSize, "Init: accepted configuration violates 0 <= WindowSize < BufferSize [C04,C05,C06,C07,C17,C18]")
+		verifAssert(len(b.Data) == 0 && b.R == 0 && b.Off == 0, "Init: buffer not empty [C04,C17]")
+		verifAssert(b.BufferSize >= cap(b.Data), "Init: BufferSize below the retained capacity [C04]")
+		zzDecInv(&b, "Init")
+		verifReach("accepted")
+		w := &zzFWriter{}
+		d, err2 := NewDecoder(w, cfg)
+		verifAssert(err2 == nil && d != nil, "NewDecoder rejects what DecoderBuffer.Init accepts [C04]")
+		if err2 == nil && d != nil {
+			verifAssert(0 <= d.buf.WindowSize && d.buf.WindowSize < d.buf.BufferSize, "NewDecoder: accepted configuration violates 0 <= WindowSize < BufferSize [C04,C05,C06,C07,C17,C18]")
+		}
+	} else {
+		// rejected: must be a configuration the documentation excludes
+		c := cfg
+		c.SetDefaults()
+		verifAssert(!(1 <= c.BufferSize && int64(c.BufferSize) <= 1<<32-1 && 0 <= c.WindowSize && c.WindowSize < c.BufferSize), "Init: documented-valid configuration rejected [C04]")
+	}
+	verifReach("end")
+}
